@@ -187,6 +187,7 @@ inductive Label where
   | terminate (code : Nat)
   | terminateStale (g : Nat) (code : Nat)                          -- TerminateStream on a kept handler created with downStream.ID = g
   | terminateRaced (code : Nat) (k : Nat) (hasData hasTrailers : Bool)  -- TerminateStream with an in-flight response of client stream k landing inside it
+  | lateResp (k : Nat) (hasData hasTrailers : Bool)   -- late response during the back-off: a frame of client stream k, in flight when that attempt was given up for a retry, lands while doRetry sleeps (phase Retry)
   deriving DecidableEq, Repr, Inhabited, Hashable
 
 def emit (s : S) (e : Ev) : S := { s with trace := s.trace ++ [e] }
@@ -559,6 +560,7 @@ def peOps (c : Cfg) : Gen.ProxyError.Ops S where
   clearRetryState := fun s => { s with rs := none }
   setSetupRetry := fun s b => { s with setupRetry := b }
   setAgainPhase := fun s _ => s
+  detachRetried := fun s => if Gen.ProxyError.detachFresh then { s with up := some none, setupRetry := false } else s
 
 /-- `processError`: new state and `some p` when it returns an error (the phase `receive` hands back) -/
 def processError (c : Cfg) (s : S) : S × Option Phase :=
@@ -764,6 +766,18 @@ def lateRecv (s : S) (k : Nat) (d t : Bool) : S :=
            hTok := if acc then .att k else s.hTok, dTok := if acc then (if d then .att k else .none) else s.dTok,
            tTok := if acc then (if t then .att k else .none) else s.tTok }
 
+/-- the worker is inside `doRetry`'s back-off sleep: `processError` handed back the phase `Retry`, `doRetry` has not yet
+chosen a host nor created the next upstream request -/
+def backoff (s : S) : Bool := s.running && s.phase == .Retry
+
+/-- the label `late response during the back-off` (phase Retry): a response frame of client stream k — the attempt the
+proxy has just given up for a retry (per-try timeout, upstream reset, retriable status) — that was already past the codec's
+stream-table lookup when the stream went away reaches `upstreamRequest.OnReceive` of the request object that created
+stream k while the worker sleeps in `doRetry`.  It is `lateRecv`: accepted only if that object is still the stream's
+current upstream request and neither marked `setupRetry` nor done.  (`processError` detaches the request it hands over to
+a retry — `Gen.ProxyError`, op `detachRetried` —, so on the repaired code the frame finds no current request.) -/
+def lateBackoff (s : S) (k : Nat) (d t : Bool) : S := if backoff s then lateRecv s k d t else s
+
 /-- `TerminateStream(code)` on a handler created with `downStream.ID = hid`, with `between` interleaved inside its reset
 of the upstream request -/
 def terminateG (c : Cfg) (s : S) (hid code : Nat) (between : S → S) : S :=
@@ -787,6 +801,7 @@ def step (c : Cfg) (s : S) : Label → S
   | .terminate code => terminateL c s code
   | .terminateStale g code => terminateG c s g code id
   | .terminateRaced code k d t => terminateG c s c.gen code (fun s => lateRecv s k d t)
+  | .lateResp k d t => lateBackoff s k d t
 
 /-- initial state for ambient load (slots held by other requests of the cluster) -/
 def init (ambRetries ambRequests : Nat) : S := { retries := ambRetries, requests := ambRequests, upActive := 0 }
